@@ -230,6 +230,22 @@ def gen_case(r):
         c.opts = (None if nohash else hashes, None, None, None, profile, None, None, True)
         c.meta['no_hashes_option'] = nohash
         c.ops = [['update', target, [], []], ['touch_timestamp', 0, [2020, 1, 1, 0, 0, 0]], ['save', [], 0, [], [], []]]
+        # the options of the command that have preconditions of their own: --timestamp and --incremental are for whole-tree
+        # updates, --incremental needs a TIMESTAMP to compare with; a precondition that does not hold is a logged message, exit 1
+        x = r.random()
+        if x < 0.12:
+            c.argv.insert(1, r.choice(['-t', '--timestamp']))
+            c.meta['ts_flag'] = True
+            if target == '':
+                c.ops[1] = ['touch_timestamp', 1, [2020, 1, 1, 0, 0, 0]]
+            else:
+                c.meta['precondition'] = 'timestamp-needs-whole-tree'
+        elif x < 0.3:
+            c.argv.insert(1, r.choice(['-i', '--incremental']))
+            c.meta['inc'] = True
+            c.ops = [['find_timestamp']]
+            if target != '':
+                c.meta['precondition'] = 'incremental-needs-whole-tree'
     else:
         nohash = r.random() < 0.06
         c.argv = ['create'] + ([] if nohash else ['-H', ' '.join(hashes)]) + ['-p', profile, '@']
@@ -320,6 +336,7 @@ def c18(ctx):
             reqs.append(rq)
     model = ET.run_model_completing(reqs)
     classes = {}
+    pcs = {}
     internal = 0
     for c, i, m in zip(cases, impl_res, model):
         mc = model_class(m, c.meta['cmd'])
@@ -333,6 +350,22 @@ def c18(ctx):
             continue
         k = ':'.join(map(str, ic[:3]))
         classes[k] = classes.get(k, 0) + 1
+        if c.meta.get('precondition') or c.meta.get('inc'):
+            # which files an incremental run skips is C11's subject; here: the command ends with an exit status, and with 1 when
+            # its precondition does not hold (sub-directory, or no TIMESTAMP in the top-level Manifests)
+            pre = c.meta.get('precondition')
+            if not pre and m[0] == 'ok' and m[1] and m[1][0][0] == 'ok' and not m[1][0][1]:
+                pre = 'incremental-needs-a-timestamp'
+            pcs['none' if not pre else pre] = pcs.get('none' if not pre else pre, 0) + 1
+            ok = (ic[0] == 'exit' or (ic[0] == 'exc' and ic[1] in ('OSError', 'NotUTF8', 'BadCompressedFile', 'CodecInternalError')))
+            if pre and ic[0] == 'exit' and ic[1] != 1:
+                ok = False
+            if not ok and not known_finding(ctx, 'C18', c, 'internal', ic):
+                internal += ic[0] == 'exc'
+                ctx.violation('spec', f'gemato {" ".join(c.argv[:-1])} ({pre or "whole tree, TIMESTAMP present"}): {ic[:3]} instead of '
+                              + ('a logged message and exit status 1' if pre else 'an exit status'),
+                              {'meta': PU.meta_of(c), 'argv': c.argv, 'impl': ic, 'tree': PT.describe(c.tree), 'precondition': pre})
+            continue
         replay = {'meta': PU.meta_of(c), 'argv': c.argv, 'opts': list(c.opts), 'impl': ic, 'model': mc, 'tree': PT.describe(c.tree)}
         acceptable = ic[0] == 'exit' or (ic[0] == 'exc' and ic[1] == 'OSError')
         if ic[0] == 'exc' and ic[1] == 'NotUTF8':
@@ -368,4 +401,5 @@ def c18(ctx):
                 ctx.violation('correspondence', f'cli:{c.argv[0]}: outcome class differs from the model: {ic[:3]} vs {mc[:3]}', dict(replay, where='cli:' + c.argv[0]))
     ctx.count('cli:robustness', len(cases), len({json.dumps([c.meta.get('files'), c.meta.get('manifests'), c.meta.get('mutations'), c.meta.get('odd'), c.argv], default=str) for c in cases}),
               samples=[{'argv': cases[0].argv, 'odd': cases[0].meta.get('odd'), 'outcome': impl_res[0]}],
-              dist={'outcomes': dict(sorted(classes.items(), key=lambda kv: -kv[1])[:40]), 'internal_errors_seen': internal})
+              dist={'outcomes': dict(sorted(classes.items(), key=lambda kv: -kv[1])[:40]), 'internal_errors_seen': internal,
+                    'option_preconditions': pcs})
